@@ -175,9 +175,11 @@ impl DictionaryBuilder {
         let mut entries = HashMap::new();
         let mut hash_table: HashMap<u32, Vec<usize>> = HashMap::new();
 
-        for i in 0..data.len().saturating_sub(self.min_match_length - 1) {
+        // A minimum match length of 0 is treated as 1 (`min_match_length - 1` underflowed)
+        let min_match_length = self.min_match_length.max(1);
+        for i in 0..data.len().saturating_sub(min_match_length - 1) {
             // Create hash for current position
-            let hash = self.hash_bytes(&data[i..i + self.min_match_length]);
+            let hash = self.hash_bytes(&data[i..i + min_match_length]);
 
             // Look for matches in the hash table
             if let Some(positions) = hash_table.get(&hash) {
@@ -187,7 +189,7 @@ impl DictionaryBuilder {
                     }
 
                     let match_len = self.find_match_length(&data, pos, i);
-                    if match_len >= self.min_match_length {
+                    if match_len >= min_match_length {
                         let offset = (i - pos) as u32;
                         let entry = DictionaryEntry::new(offset, match_len as u32);
 
